@@ -52,6 +52,9 @@ CHECKS = {
  "C16": ("Boundary checks, at training time and on new frames built so that they lack the success level / smallest value, carry fractional values in integer-trained columns and other trials: binary / B indicator of the (training) success value and refusal of absent (also falsy) values; offset of a column / call / integer arithmetic / constant unchanged and recomputed from the new frame; prop / p / proportion columns, validation and prediction-time trials; I / {} identity; exact synonymy of the aliases (B/binary, p/prop/proportion, standardize/scale, T/C(.., Treatment), S/C(.., Sum)) at training and on new data.",
          "Frames and helper expressions come from a fixed vocabulary; offset(-1) (a unary expression) is executed, not judged.",
          "runtime boundary monitor with pointwise definitions as oracle + alias shadow executions"),
+ "C17": ("Structural invariants checked on every DesignMatrices created and every object returned by evaluate_new_data (hooks on the real entry points, so they fire in the driver's workload and while the repository's tests run): slices tile the columns in term order, m[name] is that slice and unknown names are refused, as_dataframe / np.asarray / np.array / tuple unpacking / design_matrix agree, label counts and uniqueness, row alignment of response / common / group, str() and repr() succeed and contain the actual shape. The driver builds seeded random designs with every response form, single-level factors and NaN rows, then runs chains of 2..5 evaluate_new_data calls with and without unseen groups / levels and re-checks the original and all earlier results after every step.",
+         "Label uniqueness is judged only on frames without hostile level names; the content of the extra block for unseen groups is C10's.",
+         "structural invariants at hooks on the real API (invariant-at-a-hook), driven by operation chains"),
 }
 NOT_APPLICABLE = {}
 PENDING = [f"C{i:02d}" for i in range(1, 18) if f"C{i:02d}" not in CHECKS]
